@@ -9,8 +9,12 @@ Bad   == {i \in 1..N : ~ViewGood(Recs[i].sit, Recs[i].view)}
 KnownDev == {i \in Bad : Recs[i].call = "statusall" /\ Recs[i].sit.inpinset /\
                          (Rng(Recs[i].sit.down) \ Allocated(Recs[i].sit)) # {} /\
                          Recs[i].view = StatusAllView(Recs[i].sit)}
+\* second known deviation class: StatusAll with a pin allocated to a peer that is no longer a member
+KnownDev2 == {i \in Bad \ KnownDev : Recs[i].call = "statusall" /\ Recs[i].sit.inpinset /\
+                         (Allocated(Recs[i].sit) \ Rng(Recs[i].sit.members)) # {} /\
+                         Recs[i].view = StatusAllView(Recs[i].sit)}
 Drift == {i \in 1..N : Recs[i].view # (IF Recs[i].call = "status" THEN StatusView(Recs[i].sit) ELSE StatusAllView(Recs[i].sit))}
-ASSUME ndJsonSerialize(IOEnv.VERDICT_FILE, <<[n |-> N, bad |-> Bad \ KnownDev, knowndev |-> KnownDev, drift |-> Drift]>>)
+ASSUME ndJsonSerialize(IOEnv.VERDICT_FILE, <<[n |-> N, bad |-> (Bad \ KnownDev) \ KnownDev2, knowndev |-> KnownDev, knowndev2 |-> KnownDev2, drift |-> Drift]>>)
 VARIABLE x
 Init == x = 0
 Next == UNCHANGED x
